@@ -19,6 +19,9 @@ Hypothesis HUn : forall o a, P a -> P (EUn o a).
 Hypothesis HBin : forall o a b, P a -> P b -> P (EBin o a b).
 Hypothesis HCall : forall f args, Forall P args -> P (ECall f args).
 Hypothesis HCond : forall c a b, P c -> P a -> P b -> P (ECond c a b).
+Hypothesis HArr : forall es, Forall P es -> P (EArr es).
+Hypothesis HAt : forall a i, P a -> P i -> P (EAt a i).
+Hypothesis HLen : forall a, P a -> P (ELen a).
 Fixpoint expr_ind2 (e : expr) : P e :=
   match e with
   | ENum z => HNum z | EBool b => HBool b | EStr s => HStr s | EVar x => HVar x
@@ -28,6 +31,11 @@ Fixpoint expr_ind2 (e : expr) : P e :=
       HCall f args ((fix go (l : list expr) : Forall P l :=
                        match l with [] => Forall_nil P | a :: r => Forall_cons a (expr_ind2 a) (go r) end) args)
   | ECond c a b => HCond c a b (expr_ind2 c) (expr_ind2 a) (expr_ind2 b)
+  | EArr es =>
+      HArr es ((fix go (l : list expr) : Forall P l :=
+                  match l with [] => Forall_nil P | a :: r => Forall_cons a (expr_ind2 a) (go r) end) es)
+  | EAt a i => HAt a i (expr_ind2 a) (expr_ind2 i)
+  | ELen a => HLen a (expr_ind2 a)
   end.
 End ExprInd.
 
@@ -48,6 +56,14 @@ Lemma compile_call_eq G ce f args p :
       match index_of f (g_fns G) 0 with
       | Some idx => Some (cargs ++ [mk OP_CALL [N.of_nat idx]], p1)
       | None => None end
+  | None => None end.
+Proof. reflexivity. Qed.
+
+(* an array literal compiles its elements exactly like the arguments of a call *)
+Lemma compile_arr_eq G ce es p :
+  compile_expr G ce (EArr es) p =
+  match compile_args G ce es p with
+  | Some (cel, p1) => Some (cel ++ [mk OP_ARR_LITERAL [TAG_INT_N; N.of_nat (length es)]], p1)
   | None => None end.
 Proof. reflexivity. Qed.
 
@@ -188,7 +204,7 @@ Qed.
 
 Lemma compile_expr_pool G ce e : forall p c p', compile_expr G ce e p = Some (c, p') -> pool_le p p'.
 Proof.
-  induction e as [z|b|s|x|o a IHa|o a b IHa IHb|f args IHargs|c0 a b IHc IHa IHb] using expr_ind2;
+  induction e as [z|b|s|x|o a IHa|o a b IHa IHb|f args IHargs|c0 a b IHc IHa IHb|es IHes|a i IHa IHi|a IHa] using expr_ind2;
     intros p c p' H.
   - inversion H. apply pool_le_refl.
   - inversion H. apply pool_le_refl.
@@ -214,6 +230,19 @@ Proof.
     destruct (compile_expr G ce a p1) as [[ca p2]|] eqn:Ea; [|discriminate].
     destruct (compile_expr G ce b p2) as [[cb p3]|] eqn:Eb; [|discriminate].
     inversion H; subst. eapply pool_le_trans; [eauto|]. eapply pool_le_trans; eauto.
+  - rewrite compile_arr_eq in H.
+    destruct (compile_args G ce es p) as [[cel p1]|] eqn:Ea; [|discriminate].
+    inversion H; subst. clear H.
+    revert p cel p' Ea. induction IHes as [|a r Ha Hr IH]; intros p cel p' Ea; cbn [compile_args] in Ea.
+    + inversion Ea. apply pool_le_refl.
+    + destruct (compile_expr G ce a p) as [[ca q1]|] eqn:E1; [|discriminate].
+      destruct (compile_args G ce r q1) as [[cr q2]|] eqn:E2; [|discriminate]. inversion Ea; subst.
+      eapply pool_le_trans; [eapply Ha; eauto|eapply IH; eauto].
+  - cbn [compile_expr] in H. destruct (compile_expr G ce a p) as [[ca p1]|] eqn:Ea; [|discriminate].
+    destruct (compile_expr G ce i p1) as [[ci p2]|] eqn:Ei; [|discriminate].
+    inversion H; subst. eapply pool_le_trans; eauto.
+  - cbn [compile_expr] in H. destruct (compile_expr G ce a p) as [[ca p1]|] eqn:Ea; [|discriminate].
+    inversion H; subst. eapply IHa; eauto.
 Qed.
 
 Lemma compile_args_pool G ce args : forall p c p', compile_args G ce args p = Some (c, p') -> pool_le p p'.
